@@ -300,7 +300,7 @@ def check_voxels(case, ctx):
         shift = [(bb[1][i] - bb[0][i]) * 0.25 for i in range(3)]
         obj2 = operations.translate(obj, shift)
         obj2.delta = 1.0 / case["n"]
-        cont = (multi.SurfaceContainer if obj.pdimension == 2 else multi.VolumeContainer)(obj, obj2)
+        cont = build.container(multi.SurfaceContainer if obj.pdimension == 2 else multi.VolumeContainer, [obj, obj2], case["n"] // 3)
         cgrid, cfilled = voxelize.voxelize(cont, grid_size=tuple(case["grid"]), use_cubes=case["cubes"], **kw)
         ctx.label("container-of-two")
         ctx.check(len(cgrid) == len(cfilled) and len(cgrid) == 2 * len(grid), "voxel-counts", "container of two: %d voxels, %d flags; one member alone has %d voxels" % (len(cgrid), len(cfilled), len(grid)))
